@@ -141,11 +141,33 @@ class Data:
 
     def __getstate__(self):
         """Pickle lattice as ``(context, concepts)`` tuple."""
-        return self._context, self._concepts
+        # concepts as plain tuples referring to neighbors and atoms by index
+        # (pickling the linked concept objects recurses with lattice size)
+        concepts = [(c.__class__, c._extent, c._intent,
+                     tuple(u.index for u in c.upper_neighbors),
+                     tuple(l.index for l in c.lower_neighbors),
+                     c.index, c.dindex, tuple(a.index for a in c.atoms),
+                     c.objects, c.properties)
+                    for c in self._concepts]
+        return self._context, concepts
 
     def __setstate__(self, state):
         """Unpickle lattice from ``(context, concepts)`` tuple."""
-        context, concepts = state
+        context, states = state
+        concepts = []
+        for (cls, extent, intent, upper, lower,
+             index, dindex, atoms, objects, properties) in states:
+            c = cls(self, extent, intent, upper, lower)
+            c.index, c.dindex, c.atoms = index, dindex, atoms
+            if objects:
+                c.objects = objects
+            if properties:
+                c.properties = properties
+            concepts.append(c)
+        for c in concepts:
+            c.upper_neighbors = tuple(concepts[i] for i in c.upper_neighbors)
+            c.lower_neighbors = tuple(concepts[i] for i in c.lower_neighbors)
+            c.atoms = tuple(concepts[i] for i in c.atoms)
         self._init(self, context, concepts, unpickle=True)
 
     def _tolist(self):
